@@ -48,7 +48,11 @@ def record(src):
     env['PYTHONHASHSEED'] = str(src['hashseed'])
     env['VF_CUT_SEED'] = str(src['cutseed'])
     env['PYTHONPATH'] = os.path.join(VERIF, 'harness')
-    p = subprocess.run([sys.executable, '-m', 'vf.c04worker'], input=json.dumps(src), env=env, capture_output=True, text=True, timeout=600)
+    try:
+        p = subprocess.run([sys.executable, '-m', 'vf.c04worker'], input=json.dumps(src), env=env, capture_output=True, text=True, timeout=480)
+    except subprocess.TimeoutExpired:
+        # the call did not return (the solver paths used here answer within seconds): an observation, not a harness failure
+        return {'kind': 'same', 'what': 'minimize_subcircuits-did-not-return-within-480s', 'a': 0, 'b': 1, 'exc': 'DidNotReturn', 'src': src}
     lines = [l for l in p.stdout.strip().split('\n') if l.startswith('{')]
     if p.returncode != 0 or not lines:
         raise RuntimeError('c04 worker failed: ' + p.stderr[-800:])
